@@ -294,6 +294,56 @@ theorem place_forward (half : β) (child : Array Nat) (bedges : Array (Nat × Na
 
 end
 
+/-! ### totals -/
+
+section
+variable {α : Type} [Inhabited α] [Field α] [LinearOrder α] [IsStrictOrderedRing α]
+
+/-- 1 for a mutation that is in a block and has a (non-NaN) phase, 0 otherwise. -/
+def validOne (x : Option Nat × Option α) : α :=
+  match x.1, x.2 with
+  | some _, some _ => 1
+  | _, _ => 0
+
+theorem credit_total_any (bedges : Array (Nat × Nat)) (n : Nat) (x : Option Nat × Option α)
+    (hr : BlocksInRange bedges n) (hx : ∀ b φ, x = (some b, some φ) → b < bedges.size) :
+    (Finset.range n).sum (fun e => credit bedges e x) = validOne x := by
+  obtain ⟨b, φ⟩ := x
+  cases b with
+  | none => simp [credit, validOne]
+  | some b =>
+    cases φ with
+    | none => simp [credit, validOne]
+    | some φ =>
+      have := credit_total bedges n b φ (hx b φ rfl) hr
+      simpa [validOne] using this
+
+theorem credits_total (bedges : Array (Nat × Nat)) (n : Nat) (hr : BlocksInRange bedges n) :
+    ∀ (xs : List (Option Nat × Option α)), (∀ b φ, (some b, some φ) ∈ xs → b < bedges.size) →
+      (Finset.range n).sum (fun e => (xs.map (credit bedges e)).sum) = (xs.map validOne).sum := by
+  intro xs
+  induction xs with
+  | nil => intro _; simp
+  | cons x xs ih =>
+    intro hx
+    simp only [List.map_cons, List.sum_cons]
+    rw [Finset.sum_add_distrib, ih (fun b φ hm => hx b φ (List.mem_cons_of_mem _ hm)),
+      credit_total_any bedges n x hr (fun b φ hxe => hx b φ (by rw [hxe]; exact List.mem_cons_self ..))]
+
+/-- The credit of a blocked singleton written with the *reported* phase `max φ (1-φ)`: that much on the
+edge it is placed on, the rest on the other edge of its block. -/
+theorem credit_by_reported_phase (bedges : Array (Nat × Nat)) (b : Nat) (φ : α) (e : Nat)
+    (hb : b < bedges.size) (hne : (aget bedges b).1 ≠ (aget bedges b).2) :
+    credit bedges e (some b, some φ) =
+      if φ < 1 / 2 then
+        (if e = (aget bedges b).2 then 1 - φ else 0) + (if e = (aget bedges b).1 then 1 - (1 - φ) else 0)
+      else
+        (if e = (aget bedges b).1 then φ else 0) + (if e = (aget bedges b).2 then 1 - φ else 0) := by
+  simp only [credit, hb, if_true]
+  split_ifs <;> ring
+
+end
+
 /-! ### unfolding the tail of `infer` -/
 
 section
